@@ -47,7 +47,8 @@ Variable E : aenv.
 
 (* a condition may take value b in a state where the tracked variable's status is nn *)
 Definition cond_may (c : string) (nn : bool) (b : bool) : Prop :=
-  match cond_val E c (Some nn) with Some v => v = b | None => True end.
+  match cond_val E c (Some nn) with Some v => v = b | None => True end /\
+  match cond_val E c None with Some v => v = b | None => True end.
 
 Inductive exec : cstate -> skel -> outcome -> cstate -> Prop :=
 | ex_expr_raise s e x : In x (raises E e) -> exec s (SExpr e) (ORaise x) s
@@ -112,7 +113,7 @@ Definition raise_outs (e : string) (a : option bool) : list ares := map (fun x =
 
 Definition loop_outs (head : string) (B : list ares) : list ares :=
   let c := if all_c0 B then C0 else CMany in
-  raise_outs head None ++ [(ONormal, None, c)] ++
+  map (fun x => (ORaise x, None, c)) (raises E head) ++ [(ONormal, None, c)] ++
   flat_map (fun r => match r with
                      | (OReturn, _, _) => [(OReturn, None, c)]
                      | (ORaise x, _, _) => [(ORaise x, None, c)]
